@@ -216,10 +216,13 @@ pub struct Sk {
     /// next cut), like a socket or a file does; without it the default (first non-empty buffer only) applies
     #[serde(default)]
     pub vectored: bool,
+    /// a sink of fixed capacity (like `&mut [u8]`): once this many bytes have been accepted every write returns Ok(0)
+    #[serde(default)]
+    pub full_after: Option<usize>,
 }
 impl Sk {
     pub fn is_plain(&self) -> bool {
-        self.chunk == 0 && self.cuts.is_empty() && self.fail_write_at.is_none() && self.fail_flush_at.is_none() && self.reserve == 0 && !self.vectored && self.zero_write_at.is_none()
+        self.chunk == 0 && self.cuts.is_empty() && self.fail_write_at.is_none() && self.fail_flush_at.is_none() && self.reserve == 0 && !self.vectored && self.full_after.is_none() && self.zero_write_at.is_none()
     }
 }
 #[derive(Default, Debug)]
@@ -276,6 +279,13 @@ impl Write for TestSink {
         if self.spec.chunk > 0 {
             n = n.min(self.spec.chunk);
         }
+        if let Some(cap) = self.spec.full_after {
+            n = n.min(cap.saturating_sub(s.data.len()));
+            if n == 0 && !buf.is_empty() {
+                s.fault_hit = true;
+                return Ok(0);
+            }
+        }
         let total = s.data.len();
         let i = self.spec.cuts.partition_point(|&c| c <= total);
         if i < self.spec.cuts.len() {
@@ -331,6 +341,7 @@ pub enum RawOp {
     /// decompress from a source that hands over at most `1` bytes per refill (period), instead of one slice
     DecCut(Hex, usize),
     /// decompress into a sink whose k-th write call (0-based) fails with ErrorKind::Other
+    /// (k >= 1_000_000: the (k - 1_000_000)-th flush call fails instead)
     DecFail(Hex, usize),
 }
 #[derive(Clone, Debug, PartialEq, Eq, Hash, Serialize, Deserialize)]
@@ -729,7 +740,7 @@ impl RawH {
                 RawOut { v, out, consumed }
             }
             RawOp::DecFail(d, k) => {
-                let mut sink = TestSink::new(&Sk { fail_write_at: Some(*k), ..Sk::default() });
+                let mut sink = TestSink::new(&if *k >= 1_000_000 { Sk { fail_flush_at: Some(*k - 1_000_000), ..Sk::default() } } else { Sk { fail_write_at: Some(*k), ..Sk::default() } });
                 let mut rdr: &[u8] = &d.0;
                 let (v, _) = match self {
                     RawH::L(x) => guard(|| x.decompress(&mut rdr, &mut sink)),
